@@ -229,6 +229,13 @@ def run_case(fam, impl, rng, rec, tag, *, ledger_mode=False, refuse=True,
     kinds = ['Bucket', 'Set', 'BTree', 'TreeSet']
     ka = rng.choice(kinds)
     kb = rng.choice(kinds)
+    # a quarter of the cases is aimed: the first operand is a loaded leaf
+    # that a cursor of a set operation walks, the second operand is a ghost
+    # whose load sweeps the cache, and the load after that is refused (the
+    # first operand cannot be brought back in the middle of the walk)
+    directed = rng.random() < .25
+    if directed:
+        ka = rng.choice(['Bucket', 'Set', 'Bucket', 'TreeSet', 'BTree'])
     a_map = ka in families.MAPPING_KINDS
     b_map = kb in families.MAPPING_KINDS
     sizes = gen.NODE_SIZES[rng.randrange(len(gen.NODE_SIZES))]
@@ -254,6 +261,8 @@ def run_case(fam, impl, rng, rec, tag, *, ledger_mode=False, refuse=True,
     skip = set(id(x) for x in universe) | set(id(x) for x in values)
     na = rng.choice([0, 1, 2, 5, 9, 14, 20])
     nb = rng.choice([0, 1, 3, 6, 12, 20])
+    if directed:
+        na, nb = rng.choice([2, 5, 9, 14]), rng.choice([1, 3, 6, 12])
     keys_a = rng.sample(universe, min(na, len(universe)))
     keys_b = rng.sample(universe, min(nb, len(universe)))
     if rng.random() < .3 and keys_a:
@@ -301,6 +310,8 @@ def run_case(fam, impl, rng, rec, tag, *, ledger_mode=False, refuse=True,
     conn.cache.minimize()
     # mixed states: some nodes loaded again, the rest ghosts
     r = rng.random()
+    if directed:
+        r = 0.0
     if r < .35:
         harness.contents(A, a_map)
     elif r < .5:
@@ -316,18 +327,28 @@ def run_case(fam, impl, rng, rec, tag, *, ledger_mode=False, refuse=True,
     desc['multi_leaf_a'] = multi_leaf_a
     ops = applicable(fam, ka, kb)
     op = rng.choice(ops)
+    if directed:
+        cur_ops = [o for o in ops if o in (
+            'union', 'intersection', 'difference', 'or', 'and', 'sub',
+            'wunion', 'wunion_r', 'wintersection', 'wintersection_r',
+            'multiunion', 'update', 'ior', 'isub', 'pairwalk')]
+        op = rng.choice(cur_ops)
     fn, mutating = OPS[op]
     before_a = harness.contents(At, a_map)
     before_b = harness.contents(Bt, b_map)
-    s_at = rng.randint(1, 4)
+    s_at = rng.choice([1, 1, 2, 2, 3, 4])
+    if directed:
+        s_at = 1
     conn.sweep_at_setstate = s_at
     conn.sweep_leaves_only = leaves_only
     f_at = 0
-    if refuse and rng.random() < .6:
-        f_at = s_at + rng.randint(0, 2)
+    if refuse and (directed or rng.random() < .6):
+        f_at = s_at + rng.choice([0, 1, 1, 2])
+        if directed and rng.random() < .7:
+            f_at = s_at + 1
         conn.fail_setstate = f_at
     desc.update(op=op, sweep_at_load=s_at, refuse_load=f_at,
-                leaves_only=leaves_only)
+                leaves_only=leaves_only, directed=directed)
     rec.journal(repr(desc))
     refused0, sweeps0, loads0 = conn.loads_refused, conn.incall_sweeps, \
         conn.loads
